@@ -67,6 +67,7 @@ func runC16(c *an.Ctx) {
 	sharedEnumSync(c, "C16-R14", "backendpb", "metrics", "GRPCErr")
 	sharedEnumSync(c, "C16-R14", "backendpb", "metrics", "RemoteKVOp")
 	c.Borrow("C16-R11", runC05, func(o an.Obligation) bool { return o.Rule == "C05-R1" && strings.Contains(o.Key, "locFromReq") })
+	c.Borrow("C16-R11", runC01, func(o an.Obligation) bool { return o.Rule == "C01-R3" && strings.Contains(o.Key, "dnssvc") })
 	c.Floor("C16-R11", 2)
 	// ---- R11: a request is served (and billed) once; the country and ASN billed are those of the client's own address
 	c.Borrow("C16-R11", runC09, func(o an.Obligation) bool { return o.Rule == "C09-R1" })
